@@ -24,6 +24,8 @@ type c08Msg struct {
 	Compressed bool  `json:"compressed"`
 	Frags      int   `json:"fragments"`
 	BFinal     bool  `json:"bfinal,omitempty"` // compressed stream ends with a BFINAL=1 block (RFC 7692 7.2.3.4)
+	// LateLimit: the limit is set while the reader is already parked waiting for this message
+	LateLimit bool `json:"limit_set_while_reader_waits,omitempty"`
 }
 
 type c08Desc struct {
@@ -122,6 +124,7 @@ func c08Gen(tier string, seed int64) []fw.Case {
 						}
 						last := c08Msg{Limit: ml, Size: over, Compressed: p.Deflate && rng.Bool(), Frags: 1 + rng.Intn(4)}
 						last.BFinal = last.Compressed && rng.Intn(3) == 0
+						last.LateLimit = rng.Intn(4) == 0 && len(d.Msgs) > 0
 						d.Msgs = append(d.Msgs, last)
 						add(d, fmt.Sprintf("limit/%s/%s/L=%d/size=%d/%s", role, paramsKey(p), lim, over, d.Reader))
 					}
@@ -241,6 +244,22 @@ func c08Limit(r *fw.R, d c08Desc) {
 	defer cancel()
 	effLimit := int64(32768)
 	for mi, m := range d.Msgs {
+		late := m.LateLimit && m.Limit != -2 && d.Reader.Kind == "Read"
+		type rres struct {
+			b   []byte
+			err error
+		}
+		var lateRes chan rres
+		if late {
+			// the reader is parked between two messages when the limit changes (a Ping round trip tells us
+			// that it is there: its Pong is written by that very reader)
+			lateRes = make(chan rres, 1)
+			go func() { _, b, err := c.Read(ctx); lateRes <- rres{b, err} }()
+			n0 := 0
+			peer.Locked(func() { n0 = len(peer.Conf.Pongs) })
+			peer.Send(wire.Ping([]byte("parked?")))
+			peer.Wait(5*time.Second, func() bool { return len(peer.Conf.Pongs) > n0 })
+		}
 		if m.Limit != -2 {
 			c.SetReadLimit(m.Limit)
 			effLimit = m.Limit
@@ -277,7 +296,11 @@ func c08Limit(r *fw.R, d c08Desc) {
 		// read it
 		var got []byte
 		var rerr error
-		if d.Reader.Kind == "Read" {
+		if late {
+			res := <-lateRes
+			got, rerr = res.b, res.err
+			r.Count("limits_set_while_reader_waits", 1)
+		} else if d.Reader.Kind == "Read" {
 			_, got, rerr = c.Read(ctx)
 		} else {
 			var rd io.Reader
